@@ -25,6 +25,7 @@ type zzSpec struct {
 	minItems, maxItems int
 	items              *zzSpec
 
+	defs     map[string]*schemas.Type // definitions the root schema must carry for this shape
 	props    map[string]*zzSpec
 	order    []string
 	required map[string]bool
@@ -53,6 +54,7 @@ const (
 	zzKAny
 	zzKFormat
 	zzKMap
+	zzKEnumStrNull
 )
 
 func zzTypeList(name string, nullable bool) schemas.TypeList {
@@ -113,7 +115,7 @@ func zzLimit() int {
 // zzGen draws a schema of one of the kinds in mask at nesting depth <= depth.
 func zzGen(mask int, depth int, allowNullable bool) (*schemas.Type, *zzSpec) {
 	var kinds []int
-	for k := 1; k <= zzKMap; k <<= 1 {
+	for k := 1; k <= zzKEnumStrNull; k <<= 1 {
 		if mask&k != 0 {
 			if (k == zzKArray || k == zzKObject) && depth <= 0 {
 				continue
@@ -125,7 +127,7 @@ func zzGen(mask int, depth int, allowNullable bool) (*schemas.Type, *zzSpec) {
 	t := &schemas.Type{}
 	s := &zzSpec{}
 	nullable := false
-	if allowNullable && k != zzKEnumString && k != zzKEnumInt && k != zzKEnumMixed && k != zzKAny {
+	if allowNullable && k != zzKEnumString && k != zzKEnumInt && k != zzKEnumMixed && k != zzKAny && k != zzKEnumStrNull {
 		nullable = zzvrt.Bool()
 	}
 	s.nullable = nullable
@@ -232,13 +234,28 @@ func zzGen(mask int, depth int, allowNullable bool) (*schemas.Type, *zzSpec) {
 		t.Enum = []interface{}{"a", 1.5, true, nil}
 	case zzKAny:
 		s.kind = "any"
+	case zzKEnumStrNull:
+		// strings plus null, untyped or with the two-entry type list
+		s.kind = "enum-string-null"
+		if zzvrt.Bool() {
+			t.Type = schemas.TypeList{"string", "null"}
+		}
+		s.enumS = []string{"red", "green"}
+		t.Enum = []interface{}{"red", "green", nil}
 	case zzKMap:
 		// an object without properties whose additionalProperties are typed: map[string]T
 		s.kind = "map"
 		t.Type = zzTypeList("object", nullable)
-		elems := []string{"string", "number", "integer", "boolean"}
+		elems := []string{"string", "number", "integer", "boolean", "ref:integer"}
 		e := elems[zzvrt.Choice(len(elems))]
-		t.AdditionalProperties = &schemas.Type{Type: schemas.TypeList{e}}
+		if e == "ref:integer" {
+			// values typed only indirectly, through a $ref to a definition
+			t.AdditionalProperties = &schemas.Type{Ref: "#/$defs/MapElem"}
+			s.defs = map[string]*schemas.Type{"MapElem": {Type: schemas.TypeList{"integer"}}}
+			e = "integer"
+		} else {
+			t.AdditionalProperties = &schemas.Type{Type: schemas.TypeList{e}}
+		}
 		s.items = &zzSpec{kind: e}
 	}
 	if zzvrt.Param("DEFAULTS", 0) == 1 && zzvrt.Bool() {
@@ -257,6 +274,10 @@ func zzGen(mask int, depth int, allowNullable bool) (*schemas.Type, *zzSpec) {
 		case "boolean":
 			s.hasDefault, s.defB = true, true
 			t.Default = true
+		case "any":
+			// untyped property (interface{} field) whose default is a Go zero value
+			s.hasDefault, s.defF = true, 0
+			t.Default = 0.0
 		case "enum-string":
 			s.hasDefault, s.defS = true, "green"
 			t.Default = "green"
